@@ -26,6 +26,8 @@ import BumpProof.Lemmas.CollDedup
 import BumpProof.Lemmas.CollBasic
 import BumpProof.Lemmas.CollGrow
 import BumpProof.Lemmas.CollPerm
+import BumpProof.Lemmas.CollDrain
+import BumpProof.Lemmas.CollExtract
 
 namespace C06
 open Coll
@@ -236,6 +238,78 @@ theorem resize_drops_once (env : Env) (v : Vec) (newLen : Nat) (value : Id) (o :
   · simp only [h, ↓reduceIte] at heq
     refine dropsOnce_inplace hv heq (resizeSpec_perm _ _ _ _ _ _) ?_ hfresh
     split at hlen <;> omega
+
+/-! ## the draining / consuming iterators: `drain` (+ `keep_rest`), `extract_if`, `into_iter`
+
+  The caller's behaviour is a script of `next` / `next_back` calls followed by how the iterator is
+  let go; every yielded value is accounted for in `escaped` (the caller owns it now). -/
+
+theorem drain_drops_once (bombs : List Id) (v : Vec) (start end_ : Nat) (script : List Pull) (fin : Fin) (hv : v.WF) :
+    DropsOnce (drain bombs v start end_ script fin) v [] := by
+  have ⟨hs, hl⟩ := hv.slots_eq
+  refine dropsOnce_inplace hv (drain_eq bombs v v.abs start end_ script fin hs hl)
+    (by simpa using drainSpec_perm bombs v.abs start end_ script fin) ?_ (by simpa using hv.2)
+  have := drainSpec_len bombs v.abs start end_ script fin; have := hv.len_le_cap; omega
+
+theorem into_iter_drops_once (bombs : List Id) (v : Vec) (script : List Pull) (hv : v.WF) :
+    DropsOnce (intoIter bombs v script) v [] := by
+  have ⟨hs, hl⟩ := hv.slots_eq
+  exact dropsOnce_inplace hv (intoIter_eq bombs v v.abs script hs hl)
+    (by simpa using intoIterSpec_perm bombs v.abs script) (by simp [intoIterSpec]) (by simpa using hv.2)
+
+/-- after `into_iter` + drop of the iterator nothing is owned any more: every value was yielded or dropped -/
+theorem into_iter_leaves_nothing (bombs : List Id) (v : Vec) (script : List Pull) (hv : v.WF) :
+    ∃ r, intoIter bombs v script = .ok r ∧ r.vec.abs = [] := by
+  have ⟨hs, hl⟩ := hv.slots_eq
+  exact ⟨_, intoIter_eq bombs v v.abs script hs hl, by simp [after_abs, intoIterSpec]⟩
+
+theorem extract_if_drops_once (v : Vec) (calls : Nat) (o : List Outcome) (hv : v.WF) :
+    DropsOnce (extractIf v calls o) v [] := by
+  have ⟨hs, hl⟩ := hv.slots_eq
+  refine dropsOnce_inplace hv (extractIf_eq v v.abs calls o hs hl)
+    (by simpa using extractSpec_perm calls v.abs o) ?_ (by simpa using hv.2)
+  have := extractSpec_len calls v.abs o; have := hv.len_le_cap; omega
+
+/-! ## `map_in_place` (closure `T → U` with `U` of the size of `T`), `append` -/
+
+/-- every element is handed to the closure exactly once; if the closure panics, the unread elements
+    and the results produced so far are dropped (each once) and nothing is owned any more -/
+theorem map_in_place_drops_once (bombs : List Id) (v : Vec) (o : List Outcome) (hv : v.WF)
+    (hfresh : (v.total ++ mapIns v.abs o).Nodup) :
+    DropsOnce (mapInPlace bombs v o) v (mapIns v.abs o) := by
+  have ⟨hs, hl⟩ := hv.slots_eq
+  refine dropsOnce_inplace hv (mapInPlace_eq bombs v v.abs o hs hl)
+    (by simpa using mapSpec_perm v.abs [] o) ?_ hfresh
+  have h1 := mapSpec_len v.abs [] o; have := hv.len_le_cap; simp at h1; omega
+
+/-- `append(other)`: the elements of `other` move over (each still owned exactly once, now by `self`),
+    or — if the reservation is refused — `other` is dropped with all its elements; `other` is left
+    empty either way (nothing can be dropped a second time through it) -/
+theorem append_drops_once (env : Env) (v other : Vec) (hv : v.WF) (ho : other.WF)
+    (hdisj : (v.total ++ other.abs).Nodup) :
+    ∃ r o', append env v other = .ok (r, o') ∧ r.vec.WF ∧ o'.abs = [] ∧ o'.len = 0 ∧
+      (r.vec.total ++ (o'.dropLog.drop other.dropLog.length)).Perm (v.total ++ other.abs) ∧
+      (r.exit = .ret () ∨ r.vec.abs = v.abs) := by
+  have ⟨hs, hl⟩ := hv.slots_eq
+  have ⟨hso, hlo⟩ := ho.slots_eq
+  have heq := append_eq env v other v.abs other.abs hs hl hso hlo
+  have ⟨g, hc⟩ := grown_grows (env := env) (n := other.len) hv
+  refine ⟨_, _, heq, ?_⟩
+  by_cases hr : room env v other.len = true
+  · have hcap := hc hr
+    rw [hr]
+    have hw := wf_after_of_eq (r := appendSpec true v.abs other.abs) (ins := other.abs) hv g
+      (by simp [appendSpec]) (by simp [appendSpec]; omega) hdisj
+    refine ⟨hw.1, by simp [appendedOther, Vec.abs, idsOf], rfl, ?_, Or.inl (by simp [appendSpec])⟩
+    simpa [appendedOther] using hw.2
+  · have hr' : room env v other.len = false := by simpa using hr
+    rw [hr']
+    have hw := wf_after_of_eq (r := appendSpec false v.abs other.abs) (ins := []) hv g
+      (by simp [appendSpec]) (by simp [appendSpec]; have := hv.len_le_cap; have := g.cap; omega) (by simpa using hv.2)
+    refine ⟨hw.1, by simp [appendedOther, Vec.abs, idsOf], rfl, ?_, Or.inr (by simp [after_abs, appendSpec])⟩
+    have h2 := hw.2
+    simp only [List.append_nil] at h2
+    simpa [appendedOther] using List.Perm.append_right other.abs h2
 
 /-- non-vacuity: a well-formed vector `[1,2,3,4,5]` with one spare slot; the predicate keeps 1, removes 2,
     keeps 3 and panics on 4: the vector is `[1,3,4,5]`, `2` was dropped once -/
